@@ -140,10 +140,15 @@ theorem estLevelInternal_ge (t l : Nat) (ht : t < 4) : estimateUsingCParams (row
   unfold estLevelInternal
   exact mem_le_foldl_max (fun t => estimateUsingCParams (rowAt t l) false) (List.range 4) t (List.mem_range.mpr ht) 0
 
-theorem estLevel_ge (L l : Nat) (h1 : 1 ≤ l) (h2 : l ≤ L) : estLevelInternal l ≤ estLevel L := by
+theorem maxCLevel_pos : 1 ≤ maxCLevel := by decide
+
+/-- a level above `ZSTD_maxCLevel()` compresses with the row of the maximum: `min l maxCLevel` is the row a job at level `l` uses -/
+theorem estLevel_ge (L l : Nat) (h1 : 1 ≤ l) (h2 : l ≤ L) : estLevelInternal (min l maxCLevel) ≤ estLevel L := by
   unfold estLevel
-  have := mem_le_foldl_max (fun k => estLevelInternal (k + 1)) (List.range L) (l - 1) (List.mem_range.mpr (by omega)) 0
-  have e : l - 1 + 1 = l := by omega
+  have hp := maxCLevel_pos
+  have := mem_le_foldl_max (fun k => estLevelInternal (k + 1)) (List.range (min L maxCLevel)) (min l maxCLevel - 1)
+    (List.mem_range.mpr (by omega)) 0
+  have e : min l maxCLevel - 1 + 1 = min l maxCLevel := by omega
   simp only [e] at this
   exact this
 
